@@ -77,7 +77,7 @@ def run_scenarios(binary, scenarios, conc=4, timeout=1500):
     if not scenarios:
         return {}
     inp = "\n".join(json.dumps(s, sort_keys=True) for s in scenarios) + "\n"
-    p = vlib.run_drive(binary, ["run", "retry", "-j", str(vlib.NCPU), "-c", str(conc)], stdin=inp, timeout=timeout)
+    p = vlib.run_drive(binary, ["run", "retry", "-j", str(vlib.NCPU), "-c", str(conc)], stdin=inp, timeout=timeout, killed_ok=True)
     if p.returncode != 0:
         raise vlib.Infra("driver failed: rc=%s\n%s" % (p.returncode, p.stderr[-3000:]))
     res = {}
